@@ -306,21 +306,22 @@ class Fn:
 # reference: the argument convention of every callback-taking function named by the property (from today's prelude, confirmed by reading;
 # changing a convention changes what every caller's callback receives)
 ROLE_SPEC = {
-    ("for_each", 2): {"func": {("elem:0",)}},
-    ("map", 3): {"func": {("elem:0",)}, "inserter": {("result:func",)}},
-    ("map", 2): {"func": {("elem:0",)}},
-    ("filter", 3): {"f": {("elem:0",)}, "inserter": {("elem:0",)}},
-    ("filter", 2): {"f": {("elem:0",)}},
-    ("foldl", 3): {"func": {("elem:0", "acc")}},
-    ("reduce", 2): {"func": {("acc", "elem:0")}},
-    ("any_of", 2): {"func": {("elem:0",)}},
-    ("all_of", 2): {"func": {("elem:0",)}},
-    ("take_while", 3): {"f": {("elem:0",)}, "inserter": {("elem:0",)}},
-    ("take_while", 2): {"f": {("elem:0",)}},
-    ("drop_while", 3): {"f": {("elem:0",)}, "inserter": {("elem:0",)}},
-    ("drop_while", 2): {"f": {("elem:0",)}},
-    ("zip_with", 4): {"f": {("elem:1", "elem:2")}, "inserter": {("result:f",)}},
-    ("zip_with", 3): {"f": {("elem:1", "elem:2")}},
+    # (function, arity): {position of the callback parameter: set of role tuples}   (positions, not names: renaming a parameter changes nothing)
+    ("for_each", 2): {1: {("elem:0",)}},
+    ("map", 3): {1: {("elem:0",)}, 2: {("result:1",)}},
+    ("map", 2): {1: {("elem:0",)}},
+    ("filter", 3): {1: {("elem:0",)}, 2: {("elem:0",)}},
+    ("filter", 2): {1: {("elem:0",)}},
+    ("foldl", 3): {1: {("elem:0", "acc")}},
+    ("reduce", 2): {1: {("acc", "elem:0")}},
+    ("any_of", 2): {1: {("elem:0",)}},
+    ("all_of", 2): {1: {("elem:0",)}},
+    ("take_while", 3): {1: {("elem:0",)}, 2: {("elem:0",)}},
+    ("take_while", 2): {1: {("elem:0",)}},
+    ("drop_while", 3): {1: {("elem:0",)}, 2: {("elem:0",)}},
+    ("drop_while", 2): {1: {("elem:0",)}},
+    ("zip_with", 4): {0: {("elem:1", "elem:2")}, 3: {("result:0",)}},
+    ("zip_with", 3): {0: {("elem:1", "elem:2")}},
 }
 
 
@@ -394,7 +395,7 @@ class Roles:
                 k = source_param(a["obj"])
                 return "elem:%s" % ("?" if k is None else k)
             if a["k"] == "call" and a["f"]["k"] == "id" and a["f"]["name"] in callables:
-                return "result:" + a["f"]["name"]
+                return "result:%d" % params.index(a["f"]["name"])
             if a["k"] == "id":
                 if a["name"] in accs:
                     return "acc"
@@ -425,9 +426,9 @@ class Roles:
                                 elif r.startswith("param:"):
                                     mapped.append(role(n["args"][int(r[6:])]))
                                 elif r.startswith("result:"):
-                                    idx = gp.index(r[7:]) if r[7:] in gp else None
+                                    idx = int(r[7:]) if r[7:].isdigit() and int(r[7:]) < len(n["args"]) else None
                                     aa = n["args"][idx] if idx is not None else None
-                                    mapped.append("result:" + aa["name"] if aa is not None and aa["k"] == "id" and aa["name"] in callables else "other")
+                                    mapped.append("result:%d" % params.index(aa["name"]) if aa is not None and aa["k"] == "id" and aa["name"] in callables else "other")
                                 else:
                                     mapped.append(r)
                             out.setdefault(a["name"], set()).add(tuple(mapped))
@@ -547,10 +548,12 @@ def run(chk):
     ncb = 0
     for key in sorted(roles.defs):
         d = roles.defs[key]
-        summ = roles.summary(key)
+        pnames = [p_["name"] for p_ in d["params"]]
+        summ = {pnames.index(k_): v_ for k_, v_ in roles.summary(key).items() if k_ in pnames}
         spec = ROLE_SPEC.get(key)
-        for cb in sorted(set(summ) | set(spec or {})):
-            got = summ.get(cb, set())
+        for pos in sorted(set(summ) | set(spec or {})):
+            cb = "#%d (%s)" % (pos, pnames[pos] if pos < len(pnames) else "?")
+            got = summ.get(pos, set())
             ncb += 1
             fname = "%s/%d" % key
             where = "%s:%d" % (relfile, first_line + d["line"] - 1)
@@ -558,7 +561,7 @@ def run(chk):
             r8.ob("prelude %s: callback %s is applied with one argument convention" % (fname, cb), uniform, where, "prelude:" + fname,
                   "applications of %s use the conventions %s" % (cb, sorted(got) or "none (the callback is never applied)"))
             if spec is not None:
-                want = spec.get(cb)
+                want = spec.get(pos)
                 r8.ob("prelude %s: callback %s receives %s" % (fname, cb, sorted(want) if want else "nothing (not a callback of the reference table)"), got == want, where, "prelude:" + fname,
                       "applications of %s use %s, the reference convention is %s" % (cb, sorted(got), sorted(want) if want else None))
     missing8 = [k for k in ROLE_SPEC if k not in roles.defs]
